@@ -45,10 +45,17 @@ def instances(tier):
         for hist in ("two-targets", "target-then-rest"):
             out.append(dict(id="%s-%s-N2" % (hist, fam), family=fam, N=2, history=hist,
                             budget=dict(wall_s=80 if tier == "quick" else 600, max_paths=4000 if tier == "quick" else 40000)))
+    # runs that monitor events: the real event section of integrate (roll-back and re-recording of steps, buffer growth) with the events oracle
+    for fam, evs, dense in ((("euler", "n", False), ("euler", "nn", True)) if tier == "quick" else (("euler", "n", False), ("euler", "nn", True), ("rk4", "nn", False), ("sympl_euler", "n", True))):
+        out.append(dict(id="events-%s-%s-%s-N2" % (fam, evs, "dense" if dense else "nodense"), family=fam, N=2, history="events", events=list(evs), dense=dense,
+                        max_reports=3, kind="integrate", budget=dict(wall_s=80 if tier == "quick" else 600, max_paths=2500 if tier == "quick" else 40000)))
     return out
 
 
 def scenario(c, inst):
+    if inst.get("history") == "events":
+        from . import events_common as EC
+        return EC.scenario(c, inst, {"C03"})
     t0, tf, dt0 = c.real("t0"), c.real("tf"), c.real("dt0")
     span, adt = spans.input_assumptions(c, inst, t0, tf, dt0)
     kind = spans.FAMILIES[inst["family"]][2]
